@@ -205,6 +205,7 @@ func genC19(h *H) {
 			h.Run(scSealCase(sc, [][]byte{h.rng.Bytes(h.rng.Intn(60))}, sealRng(h.rng, 6), true))
 		}
 	}
+	genScColliding(h)
 	ns := []uint32{}
 	for n := uint32(1); n <= 64; n++ {
 		ns = append(ns, n)
